@@ -107,6 +107,14 @@ CHECKS = {
              'TLC judges count, initial delay, first gap, doubling with cap, own-id pre-registration and loop-back suppression.',
         note='Trusted: stubs for the module globals random/time; observation at the send queue (the 10 ms raster of the send loop is not judged).',
         design_ref='6/C15'),
+    'C05': dict(
+        technique='TLA+ spec XmlStructure.tla (descriptor algebra of xml_structure.py: property kinds x flags x value classes, Write/Read/Canon, laws RT1/RT2/Absent as invariants) enumerated by TLC; every case instantiated on every reflected member of every class; judged by TLC (XmlStructureTrace.tla)',
+        text='TLC enumerates 387 abstract cases over 73 well-formed descriptor shapes and checks the round-trip laws of the reference; reflection finds every property of every '
+             'class of pm_types, msg_types, eventing/addressing/dpws/mex/wsd types and the descriptor/state containers (an unmapped property kind is a machinery failure); each case '
+             'is written with the real as_etree_node, validated with the repository schemas (probe element with xsi:type), read back with from_node and written again; TLC judges '
+             'value, rest of the object, __eq__, freshness of defaults, second XML.',
+        note='Trusted: value classes are representatives of each simple type (C18 decides scalars); canonical form from verif/mdibharness.canon; explicit None on optional members with default/list is not judged for RT2.',
+        design_ref='6/C05'),
 }
 
 NOT_YET = 'check not built yet in this round (see DESIGN.md section 10 build order); no claim made'
